@@ -177,7 +177,7 @@ def _kinds(consts):
     return kinds
 
 
-def rule_2(ctx):
+def _rule_2_fragment(ctx):
     m, fn, arm, tokname, stackname, consts = _operator_branch(ctx)
     kinds = _kinds(consts)
     # the arm must be entered for every operator kind
@@ -382,67 +382,82 @@ def _binop_of_return(ret, p0, p1):
     return None
 
 
+def eval_formula(ctx, formula, cells, models=None):
+    """Value of a witness formula: parsed by FormulaParser.parse as written, evaluated by the node classes as written with the
+    real operator functions (the objects their decorators produce); cell references read `cells` (value-class instances)."""
+    from . import values as V
+    from xlsa.guards import World
+    pm = ctx.mod('parser')
+    am = ctx.mod('ast_nodes')
+    world = World()
+    it = Interp(ctx.a, pm, {'p': Rec(cls='pkg:parser:FormulaParser'), 'f': formula}, inline_pkg=True, world=world)
+    out = it.run([ast.parse('return p.parse(f, {})').body[0]])
+    if out.end != 'return' or not isinstance(out.value, Rec):
+        return (out.end, V.norm(out.value))
+    cm = dict(V.numpy_models())
+    cm.update(models or {})
+    cm['pkg:ast_nodes:RangeNode.eval'] = lambda self_, context: cells[self_.get('token').get('tvalue')]
+    ev = Interp(ctx.a, am, {'node': out.value, 'context': Rec(cls='pkg:ast_nodes:EvalContext', ref='S!Z9', sheet='S', refsheet='S', namespace={})},
+                inline_pkg=True, world=world, call_models=cm)
+    res = ev.run([ast.parse('return node.eval(context)').body[0]])
+    return V.norm(res.value) if res.end == 'return' else (res.end, V.norm(res.value))
+
+
 def rule_4(ctx):
-    am, anode, infix = _table(ctx, 'ast_nodes', 'INFIX_OP_TO_FUNC')
-    _, pnode, prefix = _table(ctx, 'ast_nodes', 'PREFIX_OP_TO_FUNC')
-    ctx.expect(set(infix) == set(BINARY_CLASSES), anode, 'INFIX_OP_TO_FUNC keys',
-               f'infix operator table keys {sorted(infix)} differ from the 12 binary operators')
-    ctx.expect(set(prefix) == {'-'}, pnode, 'PREFIX_OP_TO_FUNC keys',
-               f'prefix table keys {sorted(prefix)} differ from {{"-"}}')
-    for op, ref in sorted(infix.items()):
-        construct = f'INFIX_OP_TO_FUNC[{op!r}]'
-        if not isinstance(ref, Ref):
-            ctx.bad(anode, construct, 'value is not a function reference')
-            continue
-        fm, fnode = ctx.res.lookup(ref.ref)
-        if not isinstance(fnode, ast.FunctionDef):
-            ctx.bad(anode, construct, f'{ref.ref} is not a function of the package')
-            continue
-        params = func_params(fnode)
-        if op == '^':
-            _check_power(ctx, fnode, params, construct)
-            continue
-        if op == '&':
-            _check_concat(ctx, fnode, params, construct)
-            continue
-        ret = last_return(fnode)
-        shape = _binop_of_return(ret, *params[:2]) if ret is not None and len(params) >= 2 else None
-        if shape is None:
-            from . import c09
-            v = ret.value if ret is not None else None
-            mirrored = (op in PY_CMPOP and isinstance(v, ast.Call) and isinstance(v.func, ast.Name)
-                        and v.func.id == c09.MIRROR.get(fnode.name) and len(v.args) == 2
-                        and [ast.unparse(a) for a in v.args] == [params[1], params[0]])
-            if mirrored and not c09.asymmetric_overrides(ctx):
-                ctx.ok(fnode, construct, 'mirrored delegation over a symmetric order')
-                continue
-            ctx.bad(fnode, construct, f'{fnode.name} does not end in `return {params[0] if params else "?"} (op) ...`'
-                    + (' (mirrored delegation, but the comparison overrides of Text are asymmetric)' if mirrored else ''))
-            continue
-        kind, opcls, left, right = shape
-        want = PY_BINOP.get(op) or PY_CMPOP.get(op)
-        ok = (opcls is want and isinstance(left, ast.Name) and left.id == params[0]
-              and isinstance(right, ast.Name) and right.id == params[1])
-        ctx.expect(ok, fnode, construct,
-                   f'{fnode.name} returns `{ast.unparse(ret.value)}`; operator {op!r} must compute '
-                   f'{params[0]} {op} {params[1]} with the operands in declared order')
-        if op == '/':
-            _check_div_guard(ctx, fnode, ret, params)
-    # prefix minus is the negation
-    ref = prefix.get('-')
-    if isinstance(ref, Ref):
-        fm, fnode = ctx.res.lookup(ref.ref)
-        ret = last_return(fnode) if isinstance(fnode, ast.FunctionDef) else None
-        ok = False
-        if ret is not None:
-            params = func_params(fnode)
-            try:
-                ok = linear(ret.value, {params[0]: Lin.var('x')}) == Lin(0, {'x': -1})
-            except Unmodelled:
-                ok = False
-        ctx.expect(ok, fnode or pnode, "PREFIX_OP_TO_FUNC['-']", 'prefix minus function is not the negation of its operand')
-    _check_dunders(ctx)
-    ctx.floor(20, '12 infix + 1 prefix + table keys + 5 arithmetic dunders')
+    """operator text -> function -> arithmetic: `=A1 op B1` parsed and evaluated through the real operator functions on number
+    cells, for the operand pairs (7, 2), (2, 7) and (5, 5) - every operator must compute its own Python operation with the operands
+    in written order; prefix minus negates; the arithmetic special methods of the value classes compute self (op) other."""
+    import operator as op_
+    from . import values as V
+    am = ctx.mod('ast_nodes')
+    anchor = am.func('OperatorNode.eval')
+    table = {'^': op_.pow, '*': op_.mul, '/': op_.truediv, '+': op_.add, '-': op_.sub, '=': op_.eq, '<>': op_.ne, '<': op_.lt, '>': op_.gt,
+             '<=': op_.le, '>=': op_.ge, '&': lambda a, b: f'{a}{b}'}
+    for op, fn in table.items():
+        wrong = []
+        for a, b in ((7, 2), (2, 7), (5, 5)):
+            got = eval_formula(ctx, f'=A1{op}B1', {'A1': V.num(a), 'B1': V.num(b)})
+            want = fn(a, b)
+            val = got[1] if isinstance(got, tuple) and len(got) == 2 and got[0] in ('Number', 'Boolean', 'Text') else got
+            if isinstance(val, Rec) or isinstance(want, bool) != isinstance(val, bool) or (val != want and not (
+                    isinstance(val, (int, float)) and isinstance(want, (int, float)) and abs(val - want) < 1e-12)):
+                wrong.append(f'A1={a}, B1={b}: {got!r} instead of {want!r}')
+        ctx.expect(not wrong, anchor, f'INFIX_OP_TO_FUNC[{op!r}]',
+                   f'=A1{op}B1 does not compute A1 {op} B1 with the operands in written order: ' + '; '.join(wrong))
+    for f, cells, want in (('=-A1', {'A1': V.num(7)}, -7), ('=-A1', {'A1': V.num(-2.5)}, 2.5), ('=--A1', {'A1': V.num(3)}, 3),
+                           ('=50%', {}, 0.5), ('=A1*50%', {'A1': V.num(8)}, 4.0)):
+        got = eval_formula(ctx, f, cells)
+        val = got[1] if isinstance(got, tuple) and len(got) == 2 and got[0] == 'Number' else got
+        ctx.expect(isinstance(val, (int, float)) and not isinstance(val, bool) and abs(val - want) < 1e-12, anchor,
+                   "PREFIX_OP_TO_FUNC['-']" if f.startswith('=-') else f'value of {f}',
+                   f'{f} with {[(k, V.norm(v)) for k, v in cells.items()]} evaluates to {got!r}, expected {want!r}')
+    # the arithmetic special methods of the value classes: self (op) other, also with a numeric text / boolean / blank partner
+    fm = ctx.mod('xlfunctions.func_xltypes')
+    cls = fm.cls('ExcelType')
+    for name, sym, fn in (('__add__', '+', op_.add), ('__sub__', '-', op_.sub), ('__mul__', '*', op_.mul), ('__truediv__', '/', op_.truediv),
+                          ('__pow__', '**', op_.pow)):
+        wrong = []
+        for (la, a, na), (lb, b, nb) in (((7, V.num(7), 7), (2, V.num(2), 2)), ((2, V.num(2), 2), (7, V.num(7), 7)),
+                                         ((7, V.num(7), 7), ('"2"', V.text('2'), 2)), (('"7"', V.text('7'), 7), (2, V.num(2), 2)),
+                                         (('TRUE', V.boolean(True), 1), (4, V.num(4), 4)), ((6, V.num(6), 6), ('blank+3', V.num(3), 3))):
+            it = Interp(ctx.a, fm, {'a': a, 'b': b}, inline_pkg=True)
+            out = it.run([ast.parse(f'return a {sym} b').body[0]])
+            got = V.norm(out.value) if out.end == 'return' else (out.end, V.norm(out.value))
+            want = fn(na, nb)
+            ok = isinstance(got, tuple) and got[0] == 'Number' and isinstance(got[1], (int, float)) and abs(got[1] - want) < 1e-12
+            if not ok:
+                wrong.append(f'{la} {sym} {lb} = {got!r} instead of {want!r}')
+        ctx.expect(not wrong, cls, f'ExcelType.{name}', f'{name} does not compute self {sym} other on converted operands: ' + '; '.join(wrong[:3]))
+    wrong = []
+    for label, zero in (('0', V.num(0)), ('0.0', V.num(0.0)), ('"0"', V.text('0')), ('"0.0"', V.text('0.0')), ('"0e0"', V.text('0e0')),
+                        ('FALSE', V.boolean(False)), ('a blank', V.blank())):
+        it = Interp(ctx.a, fm, {'a': V.num(7), 'b': zero}, inline_pkg=True)
+        out = it.run([ast.parse('return a / b').body[0]])
+        if not (out.end == 'raise' and isinstance(out.value, Ref) and out.value.ref == XLERR + 'DivZeroExcelError'):
+            wrong.append(f'7 / {label}: {out.end} {V.norm(out.value)!r}')
+    ctx.expect(not wrong, cls, 'ExcelType.__truediv__ zero guard',
+               'division by a value that converts to zero must give #DIV/0! however the zero is spelt: ' + '; '.join(wrong))
+    ctx.floor(20, '12 infix + prefix/percent rows + 5 arithmetic special methods')
 
 
 def _check_power(ctx, fnode, params, construct):
@@ -580,7 +595,7 @@ class _Tokens(PyModel):
         return False
 
 
-def rule_5(ctx):
+def _rule_5_fragment(ctx):
     consts = _tok_consts(ctx)
     types = sorted({v for k, v in consts.items() if k.startswith('TOK_TYPE_')})
     subs = sorted({v for k, v in consts.items() if k.startswith('TOK_SUBTYPE_')} | {''})
@@ -790,13 +805,62 @@ def rule_8(ctx):
     ctx.floor(10, 'operator-node obligations')
 
 
+def _tree_rows(ctx, rows, with_blanks):
+    from . import parsetables as P
+    models = P.operator_models(ctx)
+    anchor = ctx.mod('parser').func('FormulaParser.parse')
+    n = 0
+    for i, (formula, want) in enumerate(rows):
+        variants = [formula] + (P.blank_variants(formula) if with_blanks(i) else [])
+        for g in variants:
+            got = P.parse_tree(ctx, g, models)
+            n += 1
+            ctx.expect(got == want, anchor, f'tree of {g!r}' if g != formula else f'tree of {formula}',
+                       f'{g!r} is parsed as {got!r}, expected {want!r}: Excel applies the tighter-binding operator first (unary minus, then %, '
+                       'then ^, then * /, then + -, then &, then the comparisons), equal levels from left to right, parentheses first, and blanks '
+                       'around operators do not matter')
+    return n
+
+
+def rule_2(ctx):
+    """Every ordered pair of the 12 binary operators: the tree FormulaParser.parse builds for =A1 op1 B1 op2 C1 (tokenizer, its
+    post-processing, the shunting-yard loop and build_ast interpreted as written; the tree read back through the node classes' own
+    eval with symbolic operator functions)."""
+    from . import parsetables as P
+    full = getattr(ctx, 'tier', 'quick') == 'thorough'
+    n = _tree_rows(ctx, P.binary_pair_rows(), lambda i: full)
+    ctx.floor(144, 'operator pairs')
+
+
+def rule_5(ctx):
+    """Unary minus and plus on either side of every binary operator, doubled, in front of parentheses; percent literals next to
+    every binary operator (end to end, as C01.2)."""
+    from . import parsetables as P
+    full = getattr(ctx, 'tier', 'quick') == 'thorough'
+    n = _tree_rows(ctx, P.unary_rows() + P.percent_rows(), lambda i: full or i % 6 == 0)
+    ctx.floor(60, 'unary / percent witnesses')
+
+
+def rule_9(ctx):
+    """Parentheses, chains of one operator, mixed chains; and the operator-pair formulas again with blanks around every operator
+    and at both ends (a sample in the quick tier, all of them in the thorough tier)."""
+    from . import parsetables as P
+    full = getattr(ctx, 'tier', 'quick') == 'thorough'
+    n = _tree_rows(ctx, P.paren_and_chain_rows(), lambda i: True)
+    pairs = P.binary_pair_rows()
+    sample = [(g, want) for i, (f, want) in enumerate(pairs) if (not full and i % 7 == 0) for g in P.blank_variants(f)]
+    n += _tree_rows(ctx, sample, lambda i: False)
+    ctx.floor(80, 'parenthesised / chained / spaced witnesses')
+
+
 RULES = [
     ('C01.1', 'precedence relation of the operator table', rule_1),
-    ('C01.2', 'pop decision table of the shunting-yard operator loop', rule_2),
+    ('C01.2', 'trees of =A1 op1 B1 op2 C1 for every ordered pair of binary operators (end to end)', rule_2),
     ('C01.3', 'reverse-Polish operand order (build_ast / OperatorNode.eval)', rule_3),
     ('C01.4', 'operator -> function -> Python operator', rule_4),
-    ('C01.5', 'infix -> prefix/noop switch decision tables', rule_5),
+    ('C01.5', 'unary minus / plus and percent literals next to every binary operator (end to end)', rule_5),
     ('C01.6', 'percent is an operator', rule_6),
     ('C01.7', 'scientific-notation guard', rule_7),
     ('C01.8', 'operator nodes compute from the operand values of the current evaluation', rule_8),
+    ('C01.9', 'parentheses, chains and blanks around operators (end to end)', rule_9),
 ]
